@@ -1,3 +1,4 @@
+import Props.C01
 import Props.C04
 import Props.C05
 import Props.C05b
